@@ -538,9 +538,11 @@ fn compute_intersection_residue_class(
     }
     // We compute everything in i128 to reduce the likelihood of integer overflows.
     let (stride_left, stride_right) = (interval_left.stride as i128, interval_right.stride as i128);
+    // Only the (non-negative) residues of the interval starts modulo the strides matter.
+    // Negative bases would yield negative remainders in the `%` operations below.
     let (base_left, base_right) = (
-        interval_left.start.try_to_i64().unwrap() as i128,
-        interval_right.start.try_to_i64().unwrap() as i128,
+        (interval_left.start.try_to_i64().unwrap() as i128).rem_euclid(stride_left),
+        (interval_right.start.try_to_i64().unwrap() as i128).rem_euclid(stride_right),
     );
     // The result of the extended euclidean algorithm satisfies
     // `gcd = left_inverse * stride_left + right_inverse * stride_right`.
@@ -568,7 +570,7 @@ fn compute_intersection_residue_class(
             + ((base_left % lcm) / gcd * (right_inverse * stride_right)) % lcm // = base_left / gcd * gcd (modulo stride_left)
             + base_left % gcd; // = base_left % gcd = base_right % gcd
                                // Ensure that the residue class is not negative
-        let residue_class = (residue_class + lcm) % lcm;
+        let residue_class = residue_class.rem_euclid(lcm);
 
         // Since we cannot rule out integer overflows for all possible inputs,
         // we need to check the correctness of the result.
